@@ -1029,7 +1029,13 @@ func ruleFlushRange(c *Ctx, rule string) {
 		}
 		return false
 	}
-	if !hasCall(fn, tubeEnd) {
+	// the function that holds the calls of callee: Filter itself or a private helper it calls, whose
+	// parameters are then bound to what Filter passes
+	locate := func(callee *ssa.Function) *ssa.Function {
+		if hasCall(fn, callee) {
+			return fn
+		}
+		found := fn
 		for _, b := range fn.Blocks {
 			for _, ins := range b.Instrs {
 				call, ok := ins.(*ssa.Call)
@@ -1037,7 +1043,7 @@ func ruleFlushRange(c *Ctx, rule string) {
 					continue
 				}
 				g := call.Call.StaticCallee()
-				if g == nil || g.Pkg != fn.Pkg || g.Blocks == nil || !hasCall(g, tubeEnd) || len(g.Params) != len(call.Call.Args) {
+				if g == nil || g.Pkg != fn.Pkg || g.Blocks == nil || !hasCall(g, callee) || len(g.Params) != len(call.Call.Args) {
 					continue
 				}
 				for i, prm := range g.Params {
@@ -1046,11 +1052,14 @@ func ruleFlushRange(c *Ctx, rule string) {
 					}
 					env.names[prm] = symName(call.Call.Args[i], env)
 				}
-				body = g
+				found = g
 				c.Funcs[funcName(g)] = true
 			}
 		}
+		return found
 	}
+	body = locate(tubeEnd)
+	flushBody := locate(flush)
 	// (a) the final tubeEnd
 	n := 0
 	for _, b := range body.Blocks {
@@ -1074,7 +1083,7 @@ func ruleFlushRange(c *Ctx, rule string) {
 	}
 	// (b) the flush loop: tubeFlush(i) for i from tubeIndex(diagFrom) (clamped at 0) to tubeIndex(diagTo)
 	var fl *ssa.Call
-	for _, b := range body.Blocks {
+	for _, b := range flushBody.Blocks {
 		for _, ins := range b.Instrs {
 			if call, ok := ins.(*ssa.Call); ok && call.Call.StaticCallee() == flush {
 				fl = call
